@@ -261,6 +261,27 @@ def run(ctx):
         st = {o.what for c in spb.calls("re:HashSet.*::contains$") for o in origins(spb, c.args[0]) if o.kind == "static"}
         r5.check("pgcat::server::TRACKED_PARAMETERS" in st, "set_param-filters", "set_param admits non-startup updates only for tracked parameters", "set_param no longer filters by TRACKED_PARAMETERS")
 
+        # a client's startup packet spells two of the tracked names in lower case (libpq: PGTZ -> `timezone`, PGDATESTYLE -> `datestyle`); the packet is fed in with
+        # startup == false (only tracked keys are kept), so the spelling has to be mapped before the tracked-set test on every way there - whatever `startup` says
+        cont_ = spb.calls("re:HashSet.*::contains$")
+        for low_, cap_ in (("timezone", "TimeZone"), ("datestyle", "DateStyle")):
+            eqs_ = [c for c in spb.calls("re:PartialEq.*::(eq|ne)$") if low_ in {x for x in arg_strs(spb, c) if isinstance(x, str)}]
+            # the first comparison of the else-if chain dominates the test; a later link is reached over the `not equal` edge of the one before
+            chain_ok = bool(eqs_) and bool(cont_)
+            if chain_ok:
+                e0 = eqs_[0]
+                doms = all(spb.dominates(e0.block, c.block) for c in cont_)
+                if not doms:
+                    # allowed: control-dependent only on comparisons of the same chain (other lower-case spellings)
+                    deps = spb.control_deps(e0.block, depth=4)
+                    chain_blocks = {c.block for c in spb.calls("re:PartialEq.*::(eq|ne)$") if {x for x in arg_strs(spb, c) if isinstance(x, str)} & {"timezone", "datestyle"}}
+                    def dep_is_chain(sb):
+                        return any(o.kind == "call" and o.call.block in chain_blocks for o in origins(spb, spb.blocks[sb]["term"]["op"]))
+                    chain_ok = bool(deps) and all(dep_is_chain(sb) for sb, t in deps) and all(any(spb.dominates(cb_, c.block) for cb_ in chain_blocks) for c in cont_)
+            r5.check(chain_ok, "startup-spelling-mapped:" + low_, "`%s` is mapped to `%s` before the tracked-set test on every way there" % (low_, cap_),
+                     "set_param maps `%s` to `%s` only on some ways to the tracked-set test (e.g. only when `startup` is true - and the client's startup packet is fed in with false): a client that announces %s in lower case, "
+                     "as libpq does, loses the value; it is told the pool's default and its statements run under it" % (low_, cap_, low_))
+
     # ---------------- R6 what a client SET stays marked until it has been reset (round 5)
     r6 = ctx.rule("C12-R6", "values set by one client are never visible to another: the mark a client's SET (or PREPARE) leaves on the server connection is cleared only by CleanupState::reset(), "
                   "and reset() runs only after the clean-up statement of checkin_cleanup was sent (and after pgcat's own SETs in sync_parameters, before any client statement)", floor=2)
